@@ -15,11 +15,13 @@
       layer of the last operation on each register, for every circuit built by `add`.
     * `CircuitDepth` (networkx longest path − 1, under the recorded specification of `dag_longest_path_length`) equals
       the largest ASAP layer, for every non-empty circuit built by `add`.
+    * `unwrap_nodes(); remove_identity()` on the copy succeed and leave exactly the multiset of the unwrapped,
+      identity-free operation list; hence `CircuitUnitaryCount` and `CircuitMaxEmitDepth` equal their definitions.
   Stated and kept as `def …_statement` (evaluated on every input of the correspondence run against the independent
-  op-list computation, not proved): unitary count, maximum emitter depth, reset depth, effective depth (these go
-  through `unwrap_nodes` / `remove_identity` on a copy).
+  op-list computation, not proved): reset depth and effective depth (they need the order of the operations on the
+  wires of the prepared copy, not only their multiset).
 -/
-import GraphiqModel.Proofs.Depth
+import GraphiqModel.Proofs.Unwrap
 namespace Graphiq.C18
 open Graphiq Graphiq.Dag Graphiq.Metrics
 
@@ -49,8 +51,11 @@ theorem emitter_count_eq_inputs {c : Dag} (h : DagInv c) :
   exact (g.inv.input_count .e).symm
 
 /-- hypotheses on an operation list: well-formed operations as graphiq constructs them (no user labels, at most two
-    quantum registers) -/
-def PlainSeq (seq : List Op) : Prop := ∀ op ∈ seq, OpWF op ∧ PlainOp op
+    quantum registers, wrappers wrap base gate classes) -/
+def PlainSeq (seq : List Op) : Prop := ∀ op ∈ seq, OpWF op ∧ PlainOp' op
+
+theorem PlainSeq.plain {seq : List Op} (h : PlainSeq seq) : ∀ op ∈ seq, OpWF op ∧ PlainOp op :=
+  fun op hop => ⟨(h op hop).1, (h op hop).2.toPlainOp⟩
 
 /-- **`CircuitCnotCount` = number of CNOTs between two emitters in the operation list**, for every circuit built by
     `add` from any operation list (with the metric's default penalty) -/
@@ -61,7 +66,7 @@ theorem cnot_count_eq_spec (ne np nc : Nat) (seq : List Op) (hseq : PlainSeq seq
   unfold Spec.cnotCount
   apply countP_congr_mem
   intro op hop
-  have := cnot_keys_iff (hseq op hop).1 (hseq op hop).2
+  have := cnot_keys_iff (hseq op hop).1 (hseq op hop).2.toPlainOp
   by_cases hc : op.kind = .cnot ∧ op.qregs.map (·.ty) = [.e, .e]
   · have := this.mpr hc
     simp [hc.1, hc.2, this.1, this.2]
@@ -87,7 +92,7 @@ theorem measure_count_eq_spec (ne np nc : Nat) (seq : List Op) (hseq : PlainSeq 
   unfold Spec.measureCount
   apply countP_congr_mem
   intro op hop
-  have := mcr_keys_iff (hseq op hop).1 (hseq op hop).2
+  have := mcr_keys_iff (hseq op hop).1 (hseq op hop).2.toPlainOp
   by_cases hc : op.kind = .mcr
   · simp [hc, this.mpr hc]
   · have : "MeasurementCNOTandReset" ∉ op.indexKeys := fun h => hc (this.mp h)
@@ -125,7 +130,7 @@ theorem register_depth_eq_asap (ne np nc : Nat) (seq : List Op) (hseq : PlainSeq
     (t : RegType) :
     (build ne np nc seq).1.calculateRegDepth t =
       .ok ((List.range ((build ne np nc seq).1.regs t)).map (fun i => (Spec.regDepth seq ⟨t, i⟩ : Int))) :=
-  calculateRegDepth_eq_spec ne np nc seq hseq hok t
+  calculateRegDepth_eq_spec ne np nc seq hseq.plain hok t
 
 /-- the same for `_max_depth` of any node: it is the relation `HasDepth` (inputs −1, otherwise one more than the
     deepest source of an in-edge), and the recursion terminates with fuel `depth + 2` -/
@@ -139,21 +144,40 @@ theorem max_depth_recursion_spec {c : Dag} {n : NodeId} {d : Int} (h : HasDepth 
 theorem circuit_depth_eq_spec (ne np nc : Nat) (seq : List Op) (hseq : PlainSeq seq) (hok : (build ne np nc seq).2 = none)
     (hne : (build ne np nc seq).1.nodeIds ≠ []) {L : Nat} (hL : LongestPathSpec (build ne np nc seq).1 L) :
     Metrics.circuitDepthWith L = (Spec.depth seq : Int) :=
-  circuitDepth_eq_spec ne np nc seq hseq hok hne hL
+  circuitDepth_eq_spec ne np nc seq hseq.plain hok hne hL
 
-/-! ## 4. the remaining metrics: full statements (not proved; compared on every correspondence input) -/
+/-! ## 4. metrics evaluated on the unwrapped, identity-free copy -/
 
-def unitary_count_eq_spec_statement : Prop :=
+/-- the copy `c = circuit.copy(); c.unwrap_nodes(); c.remove_identity()`: both calls succeed, the copy satisfies DagInv,
+    has the same registers, and holds exactly the multiset of operations of the unwrapped, identity-free list -/
+theorem prepared_copy_spec (ne np nc : Nat) (seq : List Op) (hseq : PlainSeq seq) (hok : (build ne np nc seq).2 = none) :
+    ∃ c', prep (build ne np nc seq).1 = .ok c' ∧ DagInv c' ∧ c'.regs = (build ne np nc seq).1.regs ∧
+      ∀ p : Op → Bool, (opsOf c').countP p = (Spec.unwrapSeq seq).countP p :=
+  prep_spec ne np nc seq hseq hok
+
+/-- **`CircuitUnitaryCount` = number of SigmaX, SigmaY, SigmaZ, Phase, PhaseDagger, Hadamard and CNOT gates after
+    unwrapping the wrappers and dropping identities**, for every circuit built by `add` -/
+theorem unitary_count_eq_spec (ne np nc : Nat) (seq : List Op) (hseq : PlainSeq seq) (hok : (build ne np nc seq).2 = none) :
+    Metrics.unitaryCount (build ne np nc seq).1 = .ok (Spec.unitaryCount seq) :=
+  unitaryCount_eq_spec ne np nc seq hseq hok
+
+/-- **`CircuitMaxEmitDepth` = the largest number of unwrapped, non-identity operations acting on one emitter**
+    (`ValueError` on both sides when there is no emitter) -/
+theorem max_emitter_depth_eq_spec (ne np nc : Nat) (seq : List Op) (hseq : PlainSeq seq)
+    (hok : (build ne np nc seq).2 = none) :
+    Metrics.maxEmitDepth (build ne np nc seq).1 = Spec.maxEmitDepth (build ne np nc seq).1.nE seq :=
+  maxEmitDepth_eq_spec ne np nc seq hseq hok
+
+/-! ## 5. the remaining metrics: full statements (not proved; compared on every correspondence input) -/
+
+/-- reset depth and effective depth need the *order* of the operations on the emitter's wire of the prepared copy (and
+    the depth recursion on it); only the multiset of its operations is established above -/
+def emitter_reset_and_effective_depth_eq_spec_statement : Prop :=
   ∀ ne np nc seq, PlainSeq seq → (build ne np nc seq).2 = none →
-    Metrics.unitaryCount (build ne np nc seq).1 = .ok (Spec.unitaryCount seq)
-
-def emitter_depths_eq_spec_statement : Prop :=
-  ∀ ne np nc seq, PlainSeq seq → (build ne np nc seq).2 = none →
-    Metrics.maxEmitDepth (build ne np nc seq).1 = Spec.maxEmitDepth (build ne np nc seq).1.nE seq ∧
     Metrics.maxEmitResetDepth (build ne np nc seq).1 = Spec.maxEmitResetDepth (build ne np nc seq).1.nE seq ∧
     Metrics.maxEmitEffDepth (build ne np nc seq).1 = Spec.maxEmitEffDepth (build ne np nc seq).1.nE seq
 
-/-! ## 5. non-vacuity -/
+/-! ## 6. non-vacuity -/
 
 def cnotEE : Op := ⟨.cnot, [⟨.e, 0⟩, ⟨.e, 1⟩], [], ["two-qubit"], []⟩
 def hP0 : Op := Op.oneQubit .hadamard ⟨.p, 0⟩
@@ -176,9 +200,9 @@ example : PlainSeq [cnotEE, hP0, mcr] := by
   intro op hop
   simp at hop
   rcases hop with rfl | rfl | rfl
-  · exact ⟨cnotEE_wf, ⟨by decide, by decide⟩⟩
-  · exact ⟨oneQubit_wf rfl (by decide), ⟨by decide, by decide⟩⟩
-  · exact ⟨mcr_wf, ⟨by decide, by decide⟩⟩
+  · exact ⟨cnotEE_wf, ⟨⟨by decide, by decide⟩, by decide⟩⟩
+  · exact ⟨oneQubit_wf rfl (by decide), plain_oneQubit _ _⟩
+  · exact ⟨mcr_wf, ⟨⟨by decide, by decide⟩, by decide⟩⟩
 
 example : (build 2 1 1 [cnotEE, hP0, mcr]).2 = none := by decide
 
